@@ -97,7 +97,15 @@ int main(int argc, char** argv) {
         }
         // empty whole nodes: remove a sorted run of keys
         for (int i = 0; i < 80; i += 1 + (int)(rng() % 2)) remove(tok, st, "k" + std::to_string(i));
+        // several whole nodes retired by ONE session: keys below distinct 8-byte prefixes, each removal unlinks a next-layer root border;
+        // all short keys of a storage of its own (borders and the interior above them)
+        for (int i = 0; i < 8; i++) { std::string k = std::string(8, (char)('A' + i)) + "tail"; char v8[8] = "abcdefg"; put<char>(tok, st, k, v8, 8); }
+        for (int i = 0; i < 8; i++) { std::string k = std::string(8, (char)('A' + i)) + "tail"; remove(tok, st, k); }
+        create_storage("drain"); for (int i = 0; i < 40; i++) { char v8[8] = "abcdefg"; put<char>(tok, "drain", "d" + std::to_string(100 + i), v8, 8); }
+        for (int i = 0; i < 40; i++) remove(tok, "drain", "d" + std::to_string(100 + i));
         long retired = g_retires - ret0;
+        // the retiring session stays open over several gc passes (the gc sees its retire queues again and again while nothing is reclaimable)
+        std::this_thread::sleep_for(std::chrono::milliseconds(argi("holdms", 25)));
         bool keep_open = (c % 2 == 0);      // every second cycle ends with the session still open
         leave(tok);
         // wait, event driven and bounded, for the background threads to make progress in THIS cycle
